@@ -60,7 +60,7 @@ theorem refineAdjustment_fixed_point_pipeline (alg : Alg) (halg : alg ≠ .svd)
     (hex : ∀ o ∈ obs, DhExact σ xyz o)
     (hview : ∀ ob ∈ revisedObs u.net, (sigmaOf u.net).view ob = σ.view ob)
     (hsub : ∀ ob ∈ revisedObs u.net, ∃ o ∈ obs, ob = (stored σ xyz o).nobs)
-    (hna : ∀ ob ∈ revisedObs u.net, NoAlias ob) (hm0 : np.m0 ≠ 0)
+    (hm0 : np.m0 ≠ 0)
     (Pc : Matrix (Fin (toProblem np).m) (Fin (toProblem np).m) ℝ) (hPc : Sigma np * Pc = 1)
     (hreg : Env.RegListOK (toProblem np)) {τ : ℝ} (hτ : GapThresholds τ)
     (hgap : RankGap (toProblem np).A ((np.m0 * np.m0) • Pc) (toProblem np).S τ) :
@@ -76,7 +76,7 @@ theorem refineAdjustment_fixed_point_pipeline (alg : Alg) (halg : alg ≠ .svd)
     have := hexσ ob hob
     unfold ExactObs at this ⊢
     rw [hview ob hob]; exact this
-  obtain ⟨hx, hr, _⟩ := exact_network_solution_zero (mk σ (obs.map (stored σ xyz))) np u hpe hexu hna hm0 Pc hPc hreg hτ
+  obtain ⟨hx, hr, _⟩ := exact_network_solution_zero (mk σ (obs.map (stored σ xyz))) np u hpe hexu hm0 Pc hPc hreg hτ
     hgap alg halg a hs
   obtain ⟨f0, hf⟩ := refineAdjustment_fixed_point σ xyz obs (adjOf np u a) hex hsub
     (fun _ => ⟨xAt_ofFn_zero _ hx, xAt_ofFn_zero _ hr⟩)
